@@ -20,7 +20,7 @@ from lx.lifted import LiftedScript, dump_runner, set_eq
 from lx.tree import PLACEHOLDER
 
 PID = "C14"
-BOUNDS = ("corpus of checks/corpus.py (no-data kinds excluded); S and up to 4 (quick) / 6 (thorough) other table/schema/alias names free, "
+BOUNDS = ("corpus of checks/corpus.py (no-data kinds excluded); S and up to 4 (quick) / 5 (thorough) other table/schema/alias names free, "
           "2-character bodies (thorough: S also 1 and 3 characters); mechanisms {scoped override, environment, environment while another key is overridden in scope, scoped override over a different environment value}; dialect ansi "
           "(thorough: + sparksql, tsql, postgres on /plain statements)")
 STUBS = ["sqllineage.runner.split / SqlFluffLineageAnalyzer._list_specific_statement_segment (parser boundary)",
@@ -220,7 +220,7 @@ def obligations(tier, seed):
     # would contain the symbolic S in the qualified twin (C01/C02 cover them with concrete names inside the subquery)
     tpl = [(k, st) for k, st in corpus.build(tier, seed) if st.kind not in ("show", "use") and not reentrant_slots(st)]
     obs = []
-    budget = 4 if tier == "quick" else 6
+    budget = 4 if tier == "quick" else 5
     for k, st in tpl:
         obs.append(DefaultSchemaOb(k, st, "ansi", "override", budget, seed))
     if tier == "quick":
@@ -242,10 +242,12 @@ def obligations(tier, seed):
         obs.append(RawDefaultSchemaOb(name, d, sql, sql2, "env"))
         obs.append(RawDefaultSchemaOb(name, d, sql, sql2, "override", legacy=True))
     if tier == "thorough":
+        extras = []
         for k, st in tpl:
             if "/plain" in k and k.startswith("insert/"):
-                obs.append(DefaultSchemaOb(k, st, "ansi", "override", 4, seed, slen=1))
-                obs.append(DefaultSchemaOb(k, st, "ansi", "override", 4, seed, slen=3))
+                extras.append(DefaultSchemaOb(k, st, "ansi", "override", 4, seed, slen=1))
+                extras.append(DefaultSchemaOb(k, st, "ansi", "override", 4, seed, slen=3))
                 for d in ("sparksql", "tsql", "postgres"):
-                    obs.append(DefaultSchemaOb(k, st, d, "override", 4, seed))
+                    extras.append(DefaultSchemaOb(k, st, d, "override", 4, seed))
+        obs += rnd.sample(extras, min(len(extras), 60))      # sized by wall time
     return obs
